@@ -1416,6 +1416,11 @@ func (c *Client) onPUBLISH(head byte) (message, topic []byte, err error) {
 			return nil, nil, err
 		}
 		if bytes != nil {
+			// The broker may have missed the previous PUBREC.
+			err = c.write(nil, []byte{typePUBREC << 4, 2, byte(packetID >> 8), byte(packetID)})
+			if err != nil {
+				return nil, nil, err
+			}
 			return nil, nil, errDupe
 		}
 
